@@ -109,7 +109,8 @@ FamMx(w12, maxBad) ==
                              !.calls = <<Call("SetX", <<APat(<<CText("x"), CRef(PName(w[5]))>>), ASvc(SName(w[6]))>>, FALSE)>>,
                              !.fields = <<Field("F1", ARef(PName(w[7]))), Field("F2", ASvc(SName(w[8])))>>]
                       [] s = "s2" -> CtorSvc("NewB", <<>>)
-                      [] OTHER   -> [EmptySvc EXCEPT !.todo = "true"]],
+                      [] OTHER   -> [CtorSvc("NewZ", <<ARef("p9"), ASvc("s9"), ASvc("s1")>>) EXCEPT !.todo = "true",
+                                       !.fields = <<Field("F1", ASvc("s8"))>>]],       \* a todo service keeps a draft body: inert
       !.decorators = IF dd = "none" THEN <<>>
                      ELSE <<Dec("t1", "Decorate", <<ARef(PName(dd)), ASvc(SName(dd))>>)>>] :
       w \in {f \in [1..8 -> Tgt] : /\ f[1] = w12[1] /\ f[2] = w12[2]
@@ -175,7 +176,11 @@ Configs(seed) ==
 
 FlagSets == IF Family \in {"M", "Mq", "N", "X"} THEN AllFlags ELSE {NoFlags}
 
-Init == sd \in Seeds /\ stage = 0 /\ cfg = EmptyCfg /\ flags = NoFlags
+ExtCases == IF Family = "ext" THEN ndJsonDeserialize("ext_cases.ndjson") ELSE <<>>
+
+Init == IF Family = "ext"
+        THEN \E i \in 1..Len(ExtCases) : sd = i /\ stage = 1 /\ cfg = ExtCases[i].cfg /\ flags = NoFlags
+        ELSE sd \in Seeds /\ stage = 0 /\ cfg = EmptyCfg /\ flags = NoFlags
 Next == /\ stage = 0
         /\ stage' = 1
         /\ cfg' \in Configs(sd)
